@@ -7,6 +7,8 @@ pub mod stubs;
 #[cfg(kani)]
 pub mod c01;
 #[cfg(kani)]
+pub mod c17;
+#[cfg(kani)]
 pub mod selftest;
 #[cfg(kani)]
 mod playback_gen;
